@@ -348,6 +348,18 @@ def run_shard(spec, ctx):
                 case = oracle.expect_ok(oracle.single(text), want, base=a0)
                 for sg, msg in oracle.check_expect(case, prefix=f"names:{how}:"):
                     ctx.fail(sg, f"{text!r}: {msg}", case)
+        if spec["half"] == 1:
+            # symbols whose names begin like a register / accumulator name are ordinary symbols
+            for name in ("r0save", "r5tmp", "r10", "r7x", "spx", "pcx", "sp1", "ac0x", "r", "r8", "pc0", "R3B"):
+                text = f"\tmov r0, {name}\n\tjsr pc, {name}\n\tclr @{name}\n\tmov #{name}, {name}(r1)\n{name}:\tnop\n"
+                a = 0o1000
+                t = a + 4 + 4 + 4 + 6
+                words = P.encode("mov", [("reg", 0), ("rel", t)], a) + P.encode("jsr", [("reg", 7), ("rel", t)], a + 4) + P.encode("clr", [("reld", t)], a + 8) \
+                    + P.encode("mov", [("imm", t), ("idx", 1, t)], a + 12) + [0o240]
+                case = oracle.expect_ok(oracle.single(text), b"".join(struct.pack("<H", w) for w in words), base=a)
+                ctx.case(text, True, ["name-like-register"], sample=text if name == "r0save" else None)
+                for sg, msg in oracle.check_expect(case, prefix="names:like-register:"):
+                    ctx.fail(sg, f"{text!r}: {msg}", case)
         if spec["half"] == 0:
             for mn in [m for m in P.mnemonics() if P.signature(m) in (["B"], ["R", "S"])]:
                 reg = "r3, " if P.signature(mn) != ["B"] else ""
